@@ -364,6 +364,27 @@ def rule_assess(ctx):
     else:
         r.violation(key, nf.loc, "a completed future may be reported with another trial's "
                     "setting, or more than once")
+    # (seed C08_12) the list of trials in flight belongs to one search: it is re-created at the start of every
+    # parallel generation — a search that ended by an exception leaves uncollected futures behind, and the next
+    # search on the same optimizer would collect and record them on top of its own max_repeats submissions
+    gp = hc.lookup("_gen_results_parallel")
+    key = ctx.key(gp, "C08-ASSESS", "fresh-futures")
+    fl = ctx.flow(gp)
+    resets = [fl.cfg.containing(n, gp.module.parents).id for n in walk_local(gp.node) if isinstance(n, ast.Assign)
+              and any(C.unparse(t) == "self._futures" for t in n.targets)
+              and ((isinstance(n.value, ast.List) and not n.value.elts) or C.unparse(n.value) in ("list()", "collections.deque()", "deque()"))]
+    apps = [fl.cfg.containing(n, gp.module.parents).id for n in walk_local(gp.node) if isinstance(n, ast.Call)
+            and isinstance(n.func, ast.Attribute) and n.func.attr in ("append", "add", "appendleft")
+            and C.unparse(n.func.value) == "self._futures"]
+    if not apps:
+        r.exempt(key, gp.loc, "trials in flight are not kept in self._futures: not decided")
+    elif resets and all(fl.cfg.all_paths_pass(fl.cfg.entry.id, resets, dst=a) for a in apps):
+        r.ok(key, gp.loc, "self._futures is re-created before the first trial of every parallel search is submitted")
+    else:
+        r.violation(key, gp.loc, "self._futures is not re-created at the start of a parallel search: trials still in flight "
+                    "from an earlier search that ended by an exception (on_trial_error='raise', KeyboardInterrupt) are "
+                    "collected and recorded by the next search — more trials than max_repeats, and results of the "
+                    "earlier search mixed into this one")
     return r
 
 
